@@ -271,3 +271,36 @@ def run (isSpace : Char → Bool) (f : Text → Text) (b : Buf) (ops : List Op) 
   ops.foldl (fun b op => (step isSpace f b op).1) b
 
 end Ptk.C01
+
+/-! ### the three views of the text: `Buffer.text` (`_working_lines[working_index]`),
+    `Buffer.document.text` (document cache keyed by text/cursor/selection) and the working line -/
+namespace Ptk.C01
+open Ptk.Py
+
+/-- buffer state with the history working lines (`_working_lines`, `working_index`) -/
+structure WBuf where
+  work : List Text
+  idx : Nat
+  cur : Nat
+deriving Repr, DecidableEq
+
+/-- `Buffer.text` getter: `self._working_lines[self.working_index]` (`none` = IndexError) -/
+def WBuf.text? (w : WBuf) : Option Text := w.work[w.idx]?
+
+/-- `Buffer.document`: `_document_cache[text, cursor_position, selection_state]`; the cache maps a key
+    to `Document(text, cursor, selection)`, so the view is the pair itself. -/
+def WBuf.document? (w : WBuf) : Option (Text × Nat) := w.text?.map fun t => (t, w.cur)
+
+/-- `Buffer._set_text(value)`: `working_lines[working_index] = value` -/
+def WBuf.setText (w : WBuf) (t : Text) : WBuf := { w with work := w.work.set w.idx t }
+
+/-- lifting an edit of the current (text, cursor) pair to the working lines, as every Buffer
+    method does through the `text` / `document` setters -/
+def WBuf.edit (w : WBuf) (e : Buf → Buf) : WBuf :=
+  match w.text? with
+  | none => w
+  | some t =>
+    let b := e { text := t, cur := w.cur }
+    { (w.setText b.text) with cur := b.cur }
+
+end Ptk.C01
